@@ -141,6 +141,12 @@ class Ctx:
     def goenv(self):
         env = dict(os.environ)
         env.update(GOENV)
+        if getattr(self, "_minimising", False):
+            # probes of a minimisation: drivers may use their short watchdog from the start (a hang was waited
+            # for generously before the minimisation began, and its result is confirmed without this flag)
+            env["VERIF_MINIMISING"] = "1"
+        else:
+            env.pop("VERIF_MINIMISING", None)
         return env
 
     def run(self, argv, stdin=None, stdout=None, timeout=3600, env=None, cwd=None, check=False):
@@ -381,6 +387,16 @@ class Ctx:
         """delta-debugging on a list of op lines; `fails(lines)->bool`; first keep_prefix lines are kept"""
         head, body = lines[:keep_prefix], lines[keep_prefix:]
         n = 2
+        self._minimising = True
+        try:
+            body = self._ddmin_body(head, body, fails, n)
+        finally:
+            self._minimising = False
+        if len(body) < len(lines) - keep_prefix and not fails(head + body):
+            return list(lines)      # the reduced history fails only under the short watchdog: keep the original
+        return head + body
+
+    def _ddmin_body(self, head, body, fails, n):
         while len(body) >= 2:
             chunk = max(1, len(body) // n)
             reduced = False
@@ -393,7 +409,7 @@ class Ctx:
                 if chunk == 1:
                     break
                 n = min(len(body), n * 2)
-        return head + body
+        return body
 
     # ------------------------------------------------------------------ known findings
     def known_findings(self):
